@@ -248,7 +248,24 @@ func ruleC12_8(c *Ctx) {
 		}
 	}
 	if n == 0 {
-		c.undecided(R, "in_toto.validateArtifacts", "iterators", 0, "no iterator advance found (the digest validator walks the hash object with reflect.MapRange)")
+		// no iterator in use: the digest validator must then range over the hash object of every artifact itself
+		f := c.lookup("in_toto.validateArtifacts")
+		nested := false
+		if f != nil {
+			mls := mapLoops(f)
+			for _, outer := range mls {
+				for _, inner := range mls {
+					if inner != outer && outer.val != nil && resolve(inner.rng.X, inner.rng) == outer.val && outer.body[inner.rng.Block()] {
+						nested = true
+					}
+				}
+			}
+		}
+		if nested {
+			c.ok(R, "in_toto.validateArtifacts", "iterators", 0, "no iterator advance in use: the hash object of every artifact is ranged over directly")
+		} else {
+			c.undecided(R, "in_toto.validateArtifacts", "iterators", 0, "no iterator advance found and no nested range over the hash objects (the digest validator walks the hash object with reflect.MapRange)")
+		}
 	}
 }
 
